@@ -59,6 +59,10 @@ type listCase struct {
 	p     params
 	dirty bool // key set in the walk-order input class
 	lane  string
+	// keys whose current version is a delete marker (versioned buckets): they read as missing and are no part of keys
+	marked []string
+	// the key set becomes one of the walk-order input class only when the files of delete-marked keys are counted
+	dirtyMarked bool
 }
 
 type finding struct {
@@ -476,6 +480,9 @@ func signature(lc *listCase, ex expectation, v *verdict, f *finding) string {
 	if lc.dirty && orderDependent && !hard {
 		return "order:sibling-byte-below-slash"
 	}
+	if lc.dirtyMarked && orderDependent && !hard {
+		return "order:sibling-byte-below-slash:sibling-holds-delete-marker"
+	}
 	sig := f.Sym
 	ent := entry{}
 	if f.Kind != "" {
@@ -488,6 +495,14 @@ func signature(lc *listCase, ex expectation, v *verdict, f *finding) string {
 				if len(k) > len(ent.Name) && strings.HasPrefix(k, ent.Name) {
 					kind = "dirobj-nonempty"
 					break
+				}
+			}
+			if kind == "dirobj" {
+				for _, k := range lc.marked {
+					if strings.HasPrefix(k, ent.Name) {
+						kind = "dirobj-with-delete-marked-keys-below"
+						break
+					}
 				}
 			}
 		case f.Sym == "missing" && kind == "cp":
@@ -513,6 +528,8 @@ func signature(lc *listCase, ex expectation, v *verdict, f *finding) string {
 				kind += "-outside-prefix"
 			case !ent.CP && lc.p.Delim != "" && strings.Contains(rest, lc.p.Delim):
 				kind += "-not-rolled-up"
+			case ent.CP && standsForMarkedOnly(lc, ent.Name):
+				kind += "-of-delete-marked-keys-only"
 			case ent.CP:
 				kind += "-wrong-grouping"
 			default:
@@ -533,6 +550,21 @@ func signature(lc *listCase, ex expectation, v *verdict, f *finding) string {
 		mk = "chained"
 	}
 	return sig + ":delim=" + dk + ":marker=" + mk
+}
+
+// standsForMarkedOnly: the common prefix groups no key of the reference but at least one key that holds a delete marker
+func standsForMarkedOnly(lc *listCase, cp string) bool {
+	for _, k := range lc.keys {
+		if strings.HasPrefix(k, cp) {
+			return false
+		}
+	}
+	for _, k := range lc.marked {
+		if strings.HasPrefix(k, cp) {
+			return true
+		}
+	}
+	return false
 }
 
 func classKey(lc *listCase, ex expectation) string {
